@@ -102,8 +102,8 @@ TABLE = {
     '_right': ('t: str, n: Optional[int]', 'len(t) <= 3 and (n is None or -2 <= n <= 5)', 't, n'),
     '_mid': ('t: str, k: int, n: int', 'len(t) <= 3 and -2 <= k <= 5 and -2 <= n <= 5', 't, k, n'),
     '_address': ('r: int, c: int, t: int, a1: bool', '1 <= r <= 100 and 1 <= c <= 800 and 0 <= t <= 5', "r, c, str(t), str(a1), 'Sh'"),
-    '_or': ('a: List[Union[int, bool]]', 'len(a) <= 3', 'a'),
-    '_and': ('a: List[Union[int, bool]]', 'len(a) <= 3', 'a'),
+    '_or': ('a: List[Union[int, bool]], b: List[Union[int, bool]]', 'len(a) <= 2 and len(b) <= 2', 'a + [b, [b]]'),
+    '_and': ('a: List[Union[int, bool]], b: List[Union[int, bool]]', 'len(a) <= 2 and len(b) <= 2', 'a + [b, [b]]'),
     '_min': ('a: List[Union[int, str, None]]', 'len(a) <= 3 and all(not isinstance(x, str) or len(x) <= 7 for x in a)', 'a'),
     '_max': ('a: List[Union[int, str, None]]', 'len(a) <= 3 and all(not isinstance(x, str) or len(x) <= 7 for x in a)', 'a'),
     '_day': ('d: int', '1 <= d <= 31', 'datetime.datetime(2024, 1, d)'),
